@@ -237,11 +237,14 @@ Check C06_frame_path : forall dbg u, wfh u -> has_authority_b u = true ->
      /\ exists P, path u' = Some P /\ new_path_ok P).
 Print Assumptions C06_frame_path.
 
-(* F-C02-8: set_path("//x") on "a:/p" gives "a://x", not well-formed *)
+(* F-C02-8: set_path("//x") on "a:/p" gives "a://x", not well-formed;
+   F-C02-3: set_path("?") on "a:b" gives "a:?" with the '?' inside the path, not well-formed *)
 Theorem C06_path_noauth_refuted :
-  wf_b sp_w1 = true /\ has_authority_b sp_w1 = false
-  /\ exists u', set_path true sp_w1 [47; 47; 120] = Some u' /\ ser u' = [97; 58; 47; 47; 120] /\ wf_b u' = false.
-Proof. exact set_path_noauth_refuted. Qed.
+  (wf_b sp_w1 = true /\ has_authority_b sp_w1 = false
+   /\ exists u', set_path true sp_w1 [47; 47; 120] = Some u' /\ ser u' = [97; 58; 47; 47; 120] /\ wf_b u' = false)
+  /\ (wf_b sp_w2 = true /\ has_authority_b sp_w2 = false
+      /\ exists u', set_path true sp_w2 [63] = Some u' /\ ser u' = [97; 58; 63] /\ query_start u' = None /\ wf_b u' = false).
+Proof. split; [exact set_path_noauth_refuted | exact set_path_opaque_refuted]. Qed.
 Print Assumptions C06_path_noauth_refuted.
 
 (* What is NOT proved here (kept as a statement): set_path / path_segments_mut on a URL without
